@@ -46,6 +46,8 @@ pub struct Rep {
     counters: BTreeMap<String, u64>,
     cur_bucket: String,
     pub verbose: bool,
+    /// C16: one line per case, compared across feature builds by the driver
+    pub transcript: Vec<String>,
 }
 
 thread_local! {
@@ -126,6 +128,7 @@ impl Rep {
             counters: BTreeMap::new(),
             cur_bucket: String::new(),
             verbose: false,
+            transcript: Vec::new(),
         }
     }
     pub fn set_journal(&mut self, path: &str) {
@@ -142,7 +145,15 @@ impl Rep {
     /// Number of cases for a random workload in this shard: quick/thorough totals across all
     /// shards, scaled, at least `min` per shard.
     pub fn n(&self, quick_total: u64, thorough_total: u64) -> u64 {
-        let t = if self.thorough() && !self.light { thorough_total } else { quick_total };
+        // the quick tier of the native builds runs 8x the base count (the base count is what the
+        // interpreter/valgrind sampling modes subsample from)
+        let t = if self.light {
+            quick_total
+        } else if self.thorough() {
+            thorough_total.max(quick_total * 8)
+        } else {
+            quick_total * 8
+        };
         let t = if self.light { t } else { (t as f64 * self.scale) as u64 };
         (t / self.nshards).max(1)
     }
@@ -157,6 +168,26 @@ impl Rep {
             return crate::rng::mix(k ^ self.seed.rotate_left(17)) % div == 0;
         }
         true
+    }
+    /// The case numbers (1..=total) this shard executes, without walking the whole range:
+    /// every nshards-th case normally, a seeded subsample of that in light mode.
+    pub fn pick(&self, total: u64) -> Vec<u64> {
+        let mut out = Vec::new();
+        if !self.light {
+            let mut k = if self.shard == 0 { self.nshards } else { self.shard };
+            while k <= total {
+                out.push(k);
+                k += self.nshards;
+            }
+            return out;
+        }
+        let div = (1.0 / self.scale.max(1e-9)).round().max(1.0) as u64;
+        let count = (total / div / self.nshards).max(1);
+        for j in 0..count {
+            let k = 1 + crate::rng::mix(self.seed ^ (self.shard << 32) ^ j.wrapping_mul(0x9e37)) % total;
+            out.push(k);
+        }
+        out
     }
     /// Start a case.  Returns false if the case must be skipped (replay of a single case).
     pub fn begin(&mut self, bucket: &str) -> bool {
@@ -349,6 +380,9 @@ impl Rep {
                 hb.extend_from_slice(&h.to_le_bytes());
             }
             let _ = std::fs::write(format!("{}.hashes", out), hb);
+            if !self.transcript.is_empty() {
+                let _ = std::fs::write(format!("{}.transcript", out), self.transcript.join("\n") + "\n");
+            }
         }
     }
 }
